@@ -733,6 +733,12 @@ func ruleR11d(c *Ctx, r *Report) {
 					if !instrReaches(in, ret) {
 						continue
 					}
+					// within the same pass through a loop the count must be in the returned sum itself:
+					// the running total of earlier rounds contains the earlier counts, not this one
+					if sameRound(in, ret) && !directAddend(ret.Results[0], cnt, 0) {
+						bad = fmt.Sprintf("the return at %s is taken right after %s wrote %s bytes, before they are added to the running total: on a failure inside a bucket the reported count is short of the bytes written", c.Pos(ret.Pos()), funcKey(f), cnt.Name())
+						continue
+					}
 					_, adds, _ := countForm(ret.Results[0])
 					if adds[cnt] < 1 {
 						bad = fmt.Sprintf("the return at %s is taken after %s wrote %s bytes but its count does not include them: on an error in the body the reported count is short of the bytes written", c.Pos(ret.Pos()), funcKey(f), cnt.Name())
@@ -745,6 +751,54 @@ func ruleR11d(c *Ctx, r *Report) {
 }
 
 var _ = constant.MakeInt64
+
+// sameRound: to is reachable from from without taking a back edge.
+func sameRound(from, to ssa.Instruction) bool {
+	if from.Block() == to.Block() {
+		return instrBefore(from, to)
+	}
+	seen := map[*ssa.BasicBlock]bool{}
+	work := []*ssa.BasicBlock{from.Block()}
+	for len(work) > 0 {
+		x := work[len(work)-1]
+		work = work[:len(work)-1]
+		for _, s := range x.Succs {
+			if s.Dominates(x) || seen[s] {
+				continue
+			}
+			if s == to.Block() {
+				return true
+			}
+			seen[s] = true
+			work = append(work, s)
+		}
+	}
+	return false
+}
+
+// directAddend: want is a term of the sum v, looking through additions and conversions but not
+// through merges (a loop-carried total is what earlier rounds added up).
+func directAddend(v, want ssa.Value, depth int) bool {
+	if depth > 8 || v == nil {
+		return false
+	}
+	if v == want || canon(v) == want {
+		return true
+	}
+	switch x := v.(type) {
+	case *ssa.BinOp:
+		if x.Op == token.ADD {
+			return directAddend(x.X, want, depth+1) || directAddend(x.Y, want, depth+1)
+		}
+	case *ssa.Convert:
+		return directAddend(x.X, want, depth+1)
+	case *ssa.UnOp:
+		if c2 := canon(x); c2 != ssa.Value(x) {
+			return directAddend(c2, want, depth+1)
+		}
+	}
+	return false
+}
 
 func ruleR11f(c *Ctx, r *Report) {
 	fn, err := c.Func(pkgIndex, "InsertionIndex", "Flatten")
